@@ -9,7 +9,7 @@ import torch
 from . import wq
 
 EVIDENCE = dict(
-    bounds="route agreement (ALG with exact-integer contractions): rows in {1,8,17,24}, in/out features in {3,4,8,12} (both sides of every size threshold in library/qbytes_mm.py and qbytes_ops.mm), batch ranks 1-3, activations float/int8/float8 codes, weights int8/float8 codes, per-axis and per-tensor output scales, routes: default, integer GEMM, CPU selector, CUDA and MPS selector functions run on CPU tensors, the routed op; accuracy (RERR): integer routes for any K < 1024 (exact contraction cut to one variable), float routes K in {1,2}; finiteness (BIT): float16/bfloat16, K in {1,2}; linear level: F.linear / matmul / bmm with weights in all six qtypes, bias on/off, input ranks 2-3, repeated calls",
+    bounds="route agreement (ALG with exact-integer contractions): rows in {1,8,17,24}, in/out features in {3,4,8,12} (both sides of every size threshold in library/qbytes_mm.py and qbytes_ops.mm), batch ranks 1-3, activations float/int8/float8 codes, weights int8/float8 codes, per-axis and per-tensor output scales, routes: default, integer GEMM, CPU selector, CUDA and MPS selector functions run on CPU tensors, the routed op; accuracy (RERR): integer routes for any K < 1024 (exact contraction cut to one variable), float routes K in {1,2}; finiteness (BIT): float16/bfloat16, K in {1,2}; linear level: F.linear / matmul / bmm with weights in all six qtypes, bias on/off, input ranks 2-3, repeated calls, in-place overwrite of the quantized weight between calls; torch.mm/matmul/bmm on quantized pairs incl. per-axis operands (scales along either axis of either operand) and the (24,8)x(8,8), (24,24)x(24,8) integer-GEMM shapes; a non-contiguous (transposed) rank-3 batch through every integer route",
     outside="the CUDA _int_mm / AWQ gemm and MPS kernels themselves; torch._weight_int8pack_mm numerics (bfloat16 x int8 on CPU: see known finding, the kernel crashes in this torch build and is not executed in-process); float accumulation for K > 2 (the per-term error model is uniform in K but that is not a solver result)",
     assumptions=[
         "a float32 contraction of exact 8-bit integer casts is exact below 2^24 in any summation order (rewritten to the integer contraction; validated against the real kernel's value on every executed op)",
